@@ -94,17 +94,22 @@ pub struct RegPlan {
 fn gen_desc(r: &mut Rng, names: &[&str]) -> DescSpec {
     let name = r.pick(names).to_string();
     let help = r.pick(&["help A", "help B"]).to_string();
-    let consts = match r.below(4) {
+    let consts = match r.below(5) {
         0 => vec![],
         1 => vec![("c".to_string(), "1".to_string())],
         2 => vec![("c".to_string(), "2".to_string())],
-        _ => vec![("c".to_string(), "1".to_string()), ("d".to_string(), "x".to_string())],
+        3 => vec![("c".to_string(), "1".to_string()), ("d".to_string(), "x".to_string())],
+        // a name that other descriptors use for a VARIABLE label
+        _ => vec![("v".to_string(), "1".to_string())],
     };
-    let vars = match r.below(3) {
+    let mut vars = match r.below(4) {
         0 => vec![],
         1 => vec!["v".to_string()],
-        _ => vec!["w".to_string()],
+        2 => vec!["w".to_string()],
+        // ... and a name that other descriptors use for a CONSTANT label
+        _ => vec!["c".to_string()],
     };
+    vars.retain(|v| !consts.iter().any(|(k, _)| k == v));
     DescSpec { name, help, consts, vars }
 }
 
